@@ -131,6 +131,34 @@ impl MSpec {
         s
     }
 
+    /// the specfile form (TOML): global_level, global_pattern, [modules]
+    pub fn to_toml_text(&self) -> String {
+        fn q(s: &str) -> String {
+            if s.contains('\'') || s.contains('\n') {
+                format!("{:?}", s) // basic string; Debug escaping of these texts is TOML compatible
+            } else {
+                format!("'{s}'")
+            }
+        }
+        let word = |lf: LevelFilter| format!("{lf}").to_lowercase();
+        let mut out = String::new();
+        for (name, lf) in &self.entries {
+            if name.is_none() {
+                out.push_str(&format!("global_level = {}\n", q(&word(*lf))));
+            }
+        }
+        if let Some(t) = &self.text {
+            out.push_str(&format!("global_pattern = {}\n", q(&t.regex())));
+        }
+        out.push_str("[modules]\n");
+        for (name, lf) in &self.entries {
+            if let Some(n) = name {
+                out.push_str(&format!("{} = {}\n", q(n), q(&word(*lf))));
+            }
+        }
+        out
+    }
+
     /// builds the real specification through the builder API (always has a default entry)
     pub fn to_real_via_builder(&self) -> LogSpecification {
         let mut b = LogSpecBuilder::new();
